@@ -46,6 +46,7 @@ func c18Decl(layout int, subOpt bool, defaultOpts bool, pano bool, ignoreUnknown
 		{Field: "From", Long: "from", Type: decl.TWords2},
 		{Field: "Verbose", Long: "verbatim", Type: decl.TBool},
 		{Field: "Num2", Long: "num", Type: decl.TInt}, // same long name as the parser's -n/--num: shadows it, -n stays the parser's
+		{Field: "ShortX", Short: "c", Type: decl.TBool}, // short-only, same letter as the parser's -c/--color: inside add, -c is this flag and --color stays the parser's
 	}}
 	pa := func(n string, t *decl.Type) *decl.PosArg { return &decl.PosArg{Field: n, Type: t} }
 	switch layout {
